@@ -241,6 +241,9 @@ type Instance struct {
 	// component) into every optional single-valued point of the instance that cannot be
 	// satisfied; the container must leave such a field untouched.
 	Preset bool `json:"preset,omitempty"`
+	// Fallback: before Run the application has put a fallback object of its own (no registered
+	// component) into the instance's satisfiable single-valued points; the container replaces it.
+	Fallback bool `json:"fallback,omitempty"`
 	// Prefilled: before Run the instance's slice points already hold one of their candidates.
 	Prefilled bool `json:"prefilled,omitempty"`
 	// PresetCfg: before Run the application itself has given the instance's scalar configuration
